@@ -1782,6 +1782,10 @@ def _read_reader_conditional_macro(ctx: ReaderContext) -> LispReaderForm:
     conditionals."""
     try:
         return _read_reader_conditional(ctx)
+    except UnexpectedEOFError as e:
+        # An unterminated reader conditional must remain distinguishable from a
+        # malformed one, since that is the REPL's cue to keep reading.
+        raise ctx.eof_error(e.message).with_traceback(e.__traceback__) from None
     except SyntaxError as e:
         raise ctx.syntax_error(e.message).with_traceback(e.__traceback__) from None
 
